@@ -529,7 +529,16 @@ func runScenario(c *common, lg *tracelog.Log, rng *rand.Rand, idx int, sc *scena
 		}
 		lg.Emit(tracelog.M{"ev": "bigop", "op": "create", "scn": idx, "desc": sc.desc, "created": a.CreateCreated, "created_unexpected": unexpected,
 			"changed_by_create": a.CreateChanged, "res": tracelog.M{"err": ""}, "writes": []string{}, "outside": []string{}, "changed_ok": true,
-			"n": 0, "nsurv": 0, "nocc": 0, "exps": []int{}})
+			"n": 0, "nsurv": 0, "nocc": 0, "exps": []int{}, "r_requested": sc.r, "blocks_beside_index": func() int {
+				// distinct recovery blocks in the files a reader discovers beside the index (<base>.*.par2), by the independent tokenizer
+				seen := map[int]bool{}
+				for _, v := range a.VolFiles {
+					for _, e := range a.VolExps[v] {
+						seen[e] = true
+					}
+				}
+				return len(seen)
+			}()})
 	}
 	ps := &protSet{S: sc.s, Order: a.Order, Data: sc.prot}
 	disk := map[string][]byte{}
